@@ -451,7 +451,14 @@ impl<'a> G<'a> {
                                 browse_name: self.qname(),
                                 node_class: class,
                                 node_attributes: self.node_attributes(class),
-                                type_definition: if self.r.chance(0.6) { ExpandedNodeId::from(NodeId::from(&ObjectTypeId::BaseObjectType)) } else { ExpandedNodeId::from(self.node()) },
+                                type_definition: if class == NodeClass::Variable && self.r.chance(0.7) {
+                                    // a type definition that fits a variable, so that the attributes are really used
+                                    ExpandedNodeId::from(NodeId::from(&VariableTypeId::BaseDataVariableType))
+                                } else if self.r.chance(0.6) {
+                                    ExpandedNodeId::from(NodeId::from(&ObjectTypeId::BaseObjectType))
+                                } else {
+                                    ExpandedNodeId::from(self.node())
+                                },
                             }
                         })
                         .collect(),
@@ -753,7 +760,7 @@ impl Scenario for C33 {
             real: vec!["MessageHandler and every service it dispatches", "AddressSpace / References / relative_path", "events::event_filter / operator", "subscriptions (timer task) and monitored items", "method implementations", "server transport tasks, Chunker, TcpCodec"],
             stubbed: vec!["TCP socket", "historical data providers (none registered)"],
             assumptions: vec!["requests are structurally valid (they are built from the typed request structures and encoded by the real encoder); byte-level malformation is C02/C09's domain"],
-            fault_kinds: vec!["randomised_request", "timer_tick_after_request", "event_raised", "type_hierarchy_cycle"],
+            fault_kinds: vec!["randomised_request", "timer_tick_after_request", "event_raised", "type_hierarchy_cycle", "attribute_mask_names_absent_field"],
         }
     }
     fn runs(&self, tier: Tier) -> u64 {
@@ -783,6 +790,10 @@ impl Scenario for C33 {
             // a client-made cycle in a type hierarchy, then requests that walk the hierarchy
             let at = rng.urange(0, steps.len());
             steps.insert(at, json!({"kind": "type_cycle", "which": rng.below(3), "ticks": 1}));
+        }
+        if rng.chance(0.05) {
+            let at = rng.urange(0, steps.len());
+            steps.insert(at, json!({"kind": "variable_attrs", "which": rng.below(3), "ticks": 0}));
         }
         // swarm knob: some runs use a signed channel, so that the session has a real nonce
         let secured = rng.chance(0.12);
@@ -845,6 +856,53 @@ async fn run(plan: &Value, ctx: &mut Ctx) {
         ctx.step(i);
         let kind = s["kind"].as_str().unwrap_or("read").to_string();
         let mut rng = Rng::new(s["rseed"].as_u64().unwrap_or(1));
+        if kind == "variable_attrs" {
+            // a Variable whose attribute mask names attributes that the structure leaves empty
+            ctx.fault("attribute_mask_names_absent_field");
+            let mask = (AttributesMask::DISPLAY_NAME | AttributesMask::ACCESS_LEVEL | AttributesMask::USER_ACCESS_LEVEL | AttributesMask::DATA_TYPE | AttributesMask::HISTORIZING | AttributesMask::VALUE | AttributesMask::VALUE_RANK).bits()
+                | match s["which"].as_u64().unwrap_or(0) {
+                    0 => AttributesMask::ARRAY_DIMENSIONS.bits(),
+                    1 => AttributesMask::ARRAY_DIMENSIONS.bits() | AttributesMask::MINIMUM_SAMPLING_INTERVAL.bits(),
+                    _ => 0x3f_ffff,
+                };
+            let req: SupportedMessage = AddNodesRequest {
+                request_header: c.header(),
+                nodes_to_add: Some(vec![AddNodesItem {
+                    parent_node_id: NodeId::new(ns, "o0").into(),
+                    reference_type_id: ReferenceTypeId::HasComponent.into(),
+                    requested_new_node_id: ExpandedNodeId::null(),
+                    browse_name: QualifiedName::new(0, format!("attrs{}", i)),
+                    node_class: NodeClass::Variable,
+                    node_attributes: ExtensionObject::from_encodable(
+                        ObjectId::VariableAttributes_Encoding_DefaultBinary,
+                        &VariableAttributes {
+                            specified_attributes: mask,
+                            display_name: LocalizedText::from("n"),
+                            description: LocalizedText::null(),
+                            write_mask: 0,
+                            user_write_mask: 0,
+                            value: Variant::Int32(1),
+                            data_type: DataTypeId::Int32.into(),
+                            value_rank: -1,
+                            array_dimensions: None,
+                            access_level: 1,
+                            user_access_level: 1,
+                            minimum_sampling_interval: 0.0,
+                            historizing: false,
+                        },
+                    ),
+                    type_definition: ExpandedNodeId::from(NodeId::from(&VariableTypeId::BaseDataVariableType)),
+                }]),
+            }
+            .into();
+            let r = c.call(req).await;
+            ctx.log(&format!("variable_attrs>{}", l2::recv_kind(&r)), "");
+            if !matches!(r, Recv::Msg(_, _)) {
+                ctx.violate("C33", "request-not-answered", "variable_attrs", format!("AddNodes for a Variable whose attribute mask names ArrayDimensions although none are given was not answered: {}", l2::recv_kind(&r)));
+                break;
+            }
+            continue;
+        }
         if kind == "type_cycle" {
             ctx.fault("type_hierarchy_cycle");
             let (a, b): (NodeId, NodeId) = match s["which"].as_u64().unwrap_or(0) {
